@@ -1,4 +1,5 @@
 import Driver.Common
+import ScionTime.Model.ClientId
 import ScionTime.Model.ServerReply
 open Driver ScionTime.Wire ScionTime.NtpPacket ScionTime.ServerReply
 
@@ -10,6 +11,8 @@ open Driver ScionTime.Wire ScionTime.NtpPacket ScionTime.ServerReply
                                      (one datagram to the running IP listener; nts = outcome of the NTS branch;
                                       the implementation side answers `ok sentinel-unanswered n=<k>` when the
                                       well-formed request that follows on the same socket gets no reply)
+  ip.ident a=<127.x.y.z> b=<127.x.y.z> -> ok a=basic b=<basic|inter> a2=<inter|basic>
+                                     (client-identity history of property C06 against the IP listener)
   ip.seq <hex>,<hex>,… nts=<0|1>  -> ok answered=<0/1 per datagram> extra=0 sentinel=answered shape=ok
                                      (datagrams sent from one client socket to one listener socket, in order)
   ip.hist <hex>,<hex>,… nv=<view>,<view>,… ak=…
@@ -37,8 +40,28 @@ where boolOfNat01? (s : String) : Option Bool :=
 def boolOfNat? (s : String) : Option Bool :=
   if s = "0" then some false else if s = "1" then some true else none
 
+/-- canonical dotted quad in 127.0.0.0/8 (what the harness accepts for `ip.ident`) -/
+def loopbackQuad? (s : String) : Option String :=
+  let octet? (t : String) : Option Nat :=
+    if t.isEmpty ∨ (t.length > 1 ∧ t.startsWith "0") ∨ ¬ t.all Char.isDigit then none
+    else match t.toNat? with
+      | some v => if v ≤ 255 then some v else none
+      | none => none
+  match (s.splitOn ".").mapM octet? with
+  | some [127, _, _, _] => some s
+  | _ => none
+
 def step (_ : Unit) (toks : List String) : Unit × String :=
   match toks with
+  | ["ip.ident", a, b] =>
+    -- client-identity history (property C06): A basic exchange, B quotes A's receive
+    -- timestamp, A quotes it; same client iff clientIdIp a = clientIdIp b
+    if ¬ (a.startsWith "a=" ∧ b.startsWith "b=") then ((), "bad-op") else
+    match loopbackQuad? (a.drop 2).toString, loopbackQuad? (b.drop 2).toString with
+    | some a, some b =>
+      if ScionTime.ClientId.clientIdIp a == ScionTime.ClientId.clientIdIp b
+      then ((), "ok a=basic b=inter a2=basic") else ((), "ok a=basic b=basic a2=inter")
+    | _, _ => ((), "bad-op")
   | ["vreq", x, port] =>
     match parseNat? x, parseNat? port with
     | some x, some port =>
